@@ -2,6 +2,7 @@
 //! in /repo (path dependencies).  Built with debug assertions and overflow checks.
 mod k3;
 mod k10;
+mod k11f;
 mod k7;
 mod k8;
 mod v1;
@@ -22,6 +23,8 @@ fn main() {
         "replay-k3" => k3::replay(&args[2]),
         "witness-k10" => k10::witness(),
         "replay-k10" => k10::replay(&args[2]),
+        "witness-k11f" => k11f::witness(),
+        "replay-k11f" => k11f::replay(&args[2]),
         "witness-k7" => k7::witness(),
         "witness-k8" => k8::witness(),
         "replay-k8" => k8::replay(&args[2]),
